@@ -641,11 +641,28 @@ func c19NonTrivial(c c19Case) bool {
 }
 
 func TestC19(t *testing.T) {
-	col := stats.New("C19", "ordered pairs of operand kinds within a family (10 integer kinds, 2 float kinds, string, bool, time), values from a boundary pool or aimed at the other operand (equal / adjacent), optionally behind pointers or interfaces; checked on pkg.Evaluate* directly, with swapped operands, and through six GRL rules over typed fact fields (in two thirds of those cases next to their negated else-twins !(L op R), which must give the complement; in a quarter of them one integer operand is written as a literal in the rule text). Non-trivial: operands differ in kind, wrapper, location or monotonic reading, or compare equal. Distinct by the full case.",
+	col := stats.New("C19", "ordered pairs of operand kinds within a family (10 integer kinds, 2 float kinds, string, bool, time), values from a boundary pool or aimed at the other operand (equal / adjacent), optionally behind pointers or interfaces; checked on pkg.Evaluate* directly, with swapped operands, and through six GRL rules over typed fact fields (in two thirds of those cases next to their negated else-twins !(L op R), which must give the complement; in a quarter of them one integer operand is written as a literal in the rule text). A tenth of the cases belong to the stepping family: one rule moves one numeric operand in three assignments (+=, -=, *=, /= or plain =) from below over equal to above the other operand while six observer rules (and optionally their operand-swapped mirrors) hold the comparisons as their conditions, so that the engine reports every comparison in every cycle; each report must follow the operands' values of that moment. Non-trivial: operands differ in kind, wrapper, location or monotonic reading, or compare equal. Distinct by the full case.",
 		"unsigned values are restricted to the int64 range and NaN is excluded, as the property states",
 		"the reference order is float64 promotion when a float is involved and int64 comparison otherwise (the documented arithmetic)")
 	defer col.Flush()
 	check(t, 0, budget(40000, 600000), func(rt *rapid.T) {
+		if rapid.IntRange(0, 9).Draw(rt, "family") == 0 {
+			// stepping family: an operand is assigned (in any form) between two evaluations of the comparisons
+			s := genC19Step(rt)
+			nt := s.LKind != s.RKind
+			col.Case(gastKey(s), nt, "family:step", "pair:"+s.LKind+"/"+s.RKind, "assignment:"+s.Op, fmt.Sprintf("right_moves:%v", s.MoveRight), fmt.Sprintf("mirrors:%v", s.Mirrors))
+			if col.WantSample(nt) {
+				col.Sample(s, nt)
+			}
+			if err := c19StepRun(s); err != nil {
+				if strings.HasPrefix(err.Error(), "harness:") {
+					rt.Fatalf("%v", err)
+				}
+				path := col.Violation("C19", "C19/step/"+s.Op, err.Error(), s)
+				rt.Fatalf("C19 violated: %v (replay %s)", err, path)
+			}
+			return
+		}
 		c := genC19(rt)
 		key := gastKey(c)
 		nt := c19NonTrivial(c)
@@ -673,6 +690,16 @@ func gastKey(v interface{}) string {
 
 func init() {
 	replayers["C19"] = func(raw json.RawMessage) error {
+		var fam struct {
+			Family string `json:"family"`
+		}
+		if json.Unmarshal(raw, &fam) == nil && fam.Family == "step" {
+			var s c19Step
+			if err := json.Unmarshal(raw, &s); err != nil {
+				return err
+			}
+			return c19StepRun(s)
+		}
 		var c c19Case
 		if err := json.Unmarshal(raw, &c); err != nil {
 			return err
